@@ -298,6 +298,9 @@ def analyse_verdict(run, rule, model, fi, list_param, mapping_param, depth):
                     outs.append((k, "T" if cur == "N" else cur))
                 else:
                     outs.append((k, cur))
+        elif node.kind == "test" and isinstance(node.stmt, ast.Assert):
+            # asserts vanish under -O: they guard nothing, the assumed-true edge is followed in every state
+            outs.append(("T", cur))
         elif node.kind == "test":
             # refinement on the verdict variable: ``if exception is None`` / ``if exception``
             for k in ("T", "F"):
